@@ -508,7 +508,8 @@ impl GroupConfig {
         Ok(PathSelector::new(base_dir.clone())
             .include_names(include_names?)
             .include_paths(include_paths?)
-            .exclude_paths(exclude_paths?))
+            .exclude_paths(exclude_paths?)
+            .input_paths(self.paths.iter().cloned()))
     }
 
     pub fn group_filter(&self) -> FileGroupFilter {
